@@ -165,17 +165,28 @@ Proof.
   - congruence.
 Qed.
 
-Lemma ireduce_spec {A} (f : A -> Z -> A) : forall n acc s,
+(* a reduction function that never panics: g is what it computes *)
+Lemma ireduce_spec {A} (f : A -> Z -> option A) (g : A -> Z -> A) :
+  (forall a x, f a x = Some (g a x)) -> forall n acc s,
   iok s -> (isize s < n)%nat ->
-  exists s' ev, ireduce n f acc s = (Item (fold_left f (iden s) acc), s', ev).
+  exists s' ev, ireduce n f acc s = (Item (fold_left g (iden s) acc), s', ev).
 Proof.
-  induction n as [|n IH]; intros acc s Hok Hn; [lia|]. simpl.
+  intros Hfg. induction n as [|n IH]; intros acc s Hok Hn; [lia|]. simpl.
   destruct (istep_spec s Hok) as (o & s1 & ev1 & E & Hok1 & Hp). rewrite E.
   destruct o as [x| | | |]; try (destruct Hp; fail).
-  - destruct Hp as [Hd Hs]. destruct (IH (f acc x) s1 Hok1 ltac:(lia)) as (s' & ev & E2).
+  - destruct Hp as [Hd Hs]. rewrite Hfg.
+    destruct (IH (g acc x) s1 Hok1 ltac:(lia)) as (s' & ev & E2).
     rewrite E2. simpl. rewrite Hd. simpl. eauto.
   - destruct Hp as (Hd & _). rewrite Hd. simpl. eauto.
 Qed.
+
+(* Reduce with + and a reduction function that never panics *)
+Lemma isum_step_ok fl : cb_panics fl = false ->
+  forall a x, isum_step fl a x = Some (S (fst a), snd a + x).
+Proof. intros Hfl a x. unfold isum_step. rewrite (panics_now_false fl _ Hfl). reflexivity. Qed.
+Lemma fold_sum_snd l : forall c a,
+  snd (fold_left (fun (a : nat * Z) x => (S (fst a), snd a + x)) l (c, a)) = fold_left Z.add l a.
+Proof. induction l as [|x l IH]; intros c a; simpl; [reflexivity|apply IH]. Qed.
 
 Lemma fold_snoc (l acc : list Z) : fold_left (fun out x => out ++ [x]) l acc = acc ++ l.
 Proof.
@@ -187,7 +198,8 @@ Lemma icollect_spec s : iok s ->
   exists s' ev, icollect (ired_fuel s) s = (Item (iden s), s', ev).
 Proof.
   intros Hok. unfold icollect, ired_fuel.
-  destruct (ireduce_spec (fun out x => out ++ [x]) (S (isize s)) [] s Hok ltac:(lia))
+  destruct (ireduce_spec (fun out x => Some (out ++ [x])) (fun out x => out ++ [x])
+                         ltac:(reflexivity) (S (isize s)) [] s Hok ltac:(lia))
     as (s' & ev & E).
   rewrite E, fold_snoc. simpl. eauto.
 Qed.
@@ -223,7 +235,8 @@ Proof.
   intros Hok Hg. unfold ilast, ired_fuel.
   destruct (cfg_last_guard cfg && (n <=? 0)) eqn:Eg.
   - apply andb_true_iff in Eg. destruct Eg as [_ En]. apply Z.leb_le in En.
-    destruct (ireduce_spec (fun (u : unit) _ => u) (S (isize s)) tt s Hok ltac:(lia))
+    destruct (ireduce_spec (fun (u : unit) _ => Some u) (fun (u : unit) _ => u)
+                           ltac:(reflexivity) (S (isize s)) tt s Hok ltac:(lia))
       as (s' & ev & E).
     rewrite E. replace (Z.to_nat n) with O by lia. rewrite lastn_zero. eauto.
   - assert (Hn : 1 <= n).
@@ -352,9 +365,10 @@ Section IterRuns.
   Variables (cfg : config) (p : pz) (b : bool).
   Hypothesis Hs : iter_supported_z p = true.
   Hypothesis Hd : dom_z p.
+  Hypothesis Hnp : no_panics_z p = true.
 
   Ltac init_facts Hs Hd :=
-    pose proof (proj1 iinit_ok _ Hd) as Hok; pose proof (proj1 iinit_den _ Hs) as Hden.
+    pose proof (proj1 iinit_ok _ Hd Hnp) as Hok; pose proof (proj1 iinit_den _ Hs) as Hden.
 
   Theorem iter_collect_den :
     results (run_iter_cfg cfg (inl p) (Reduce RCollect b)) = [RVal (den_z p)].
@@ -363,13 +377,14 @@ Section IterRuns.
     destruct (icollect_spec (iinit p) Hok) as (s' & ev & E). rewrite E, Hden. reflexivity.
   Qed.
 
-  Theorem iter_sum_den :
-    results (run_iter_cfg cfg (inl p) (Reduce RSum b)) = [RVal [fold_left Z.add (den_z p) 0]].
+  Theorem iter_sum_den fl : cb_panics fl = false ->
+    results (run_iter_cfg cfg (inl p) (Reduce (RSum fl) b))
+    = [RVal [fold_left Z.add (den_z p) 0]].
   Proof.
-    init_facts Hs Hd. unfold results, run_iter_cfg, irun_reduce.
-    destruct (ireduce_spec Z.add (ired_fuel (iinit p)) 0 (iinit p) Hok
-                           ltac:(unfold ired_fuel; lia)) as (s' & ev & E).
-    rewrite E, Hden. reflexivity.
+    intros Hfl. init_facts Hs Hd. unfold results, run_iter_cfg, irun_reduce.
+    destruct (ireduce_spec (isum_step fl) _ (isum_step_ok fl Hfl) (ired_fuel (iinit p)) (O, 0)
+                           (iinit p) Hok ltac:(unfold ired_fuel; lia)) as (s' & ev & E).
+    rewrite E, Hden. simpl. rewrite fold_sum_snd. reflexivity.
   Qed.
 
   Theorem iter_one_den :
@@ -391,14 +406,15 @@ Section IterRuns.
 
   Theorem iter_equal_den others :
     forallb iter_supported_z others = true -> Forall dom_z others ->
+    forallb no_panics_z others = true ->
     exists e : bool, results (run_iter_cfg cfg (inl p) (Reduce (REqual others) b))
               = [RVal [if e then 1 else 0]] /\
               (e = true <-> Forall (fun q => den_z q = den_z p) others).
   Proof.
-    intros Hso Hdo. init_facts Hs Hd. unfold results, run_iter_cfg, irun_reduce.
+    intros Hso Hdo Hnpo. init_facts Hs Hd. unfold results, run_iter_cfg, irun_reduce.
     assert (Hoko : Forall iok (map iinit others)).
-    { rewrite Forall_map. eapply Forall_impl; [|exact Hdo]. intros q Hq.
-      apply (proj1 iinit_ok). exact Hq. }
+    { rewrite Forall_map. rewrite forallb_forall in Hnpo. rewrite Forall_forall in *.
+      intros q Hq. apply (proj1 iinit_ok); auto. }
     destruct (iequal_spec (ired_fuel (iinit p)) (iinit p) (map iinit others) Hok Hoko
                           ltac:(unfold ired_fuel; lia)) as (e & st & ev & E & He).
     rewrite E. exists e. split; [reflexivity|]. rewrite He, Hden, Forall_map.
@@ -418,7 +434,7 @@ Section IterRuns.
       (forall q, ilden (ilinit (pl_shift d q)) = ilden (ilinit q) /\
                  (ilok (ilinit q) -> ilok (ilinit (pl_shift d q))))).
     { intros d. apply pipe_ind; simpl; intros;
-        try (destruct H as [H1 H2]; split; [rewrite ?H1; try reflexivity|auto]).
+        try (destruct H as [H1 H2]; split; [rewrite ?H1; try reflexivity|try tauto]).
       - auto.
       - unfold pkden; simpl. rewrite H1. reflexivity.
       - unfold fden; simpl. rewrite H1. reflexivity.
@@ -434,7 +450,6 @@ Section IterRuns.
           induction H as [|x t [_ Hx] Ht IH]; simpl in *; [exact I|]. destruct Ha. auto.
       - unfold wden; simpl. rewrite H1. reflexivity.
       - unfold fsden; simpl. rewrite H1. reflexivity.
-      - intros [Hn Hq]. auto.
       - unfold rden, pkden; simpl. rewrite H1. reflexivity. }
     destruct (proj1 (Hshift 1000%nat) p) as [Hsd Hso].
     destruct (iequal_spec (ired_fuel (iinit p)) (iinit p) [iinit (pz_shift 1000 p)] Hok
